@@ -86,7 +86,16 @@ class World:
         self.uses = {}           # class -> the Use object that generated it (for Use.map)
         self.obs_cache = {}
         if World._ROOT is None or World._ROOT[0] != os.getpid():
-            World._ROOT = (os.getpid(), _scratch('c15'))
+            # one scratch root per check process (created by the parent, removed by tlc.cleanup()); pool workers get a
+            # sub-directory of it so that nothing is left behind when they are terminated
+            parent = os.environ.get('VERIF_C15_ROOT')
+            if parent and os.path.isdir(parent):
+                sub = os.path.join(parent, 'w%d' % os.getpid())
+                os.makedirs(sub, exist_ok=True)
+                World._ROOT = (os.getpid(), sub)
+            else:
+                World._ROOT = (os.getpid(), _scratch('c15'))
+                os.environ['VERIF_C15_ROOT'] = World._ROOT[1]
         root = World._ROOT[1]
         self.config = Config({'path': {'output-root': os.path.join(root, 'out'), 'log-root': os.path.join(root, 'log'),
                                        'report-root': os.path.join(root, 'rep')}})
@@ -504,6 +513,7 @@ def _impl_counterexample(ctx, wd, name, invariants, properties, stats):
 
 
 def run_c15(ctx):
+    os.environ['VERIF_C15_ROOT'] = _scratch('c15')
     ctx.rule('spec->code: every complete history of Factory.tla that TLC dumps (all pairs of requests over the universe of the '
              'configuration, the second possibly injecting / mapping over the task of the first), simulated longer histories over a '
              'larger universe, and the counterexamples of FactoryImpl.tla are executed on real Use / using / Use.map / '
